@@ -15,11 +15,11 @@ import (
 )
 
 type options struct {
-	repo, verif, prop, tier, unit, dump string
+	repo, verif, prop, tier, unit, dump       string
 	list, updateRegistry, verbose, noEvidence bool
-	timeout                           time.Duration
-	seed                              int
-	workers                           int
+	timeout                                   time.Duration
+	seed                                      int
+	workers                                   int
 }
 
 func main() {
@@ -34,7 +34,7 @@ func main() {
 	flag.BoolVar(&o.updateRegistry, "update-registry", false, "rewrite contracts/registry.json for the property from this run")
 	flag.BoolVar(&o.verbose, "v", false, "verbose")
 	flag.BoolVar(&o.noEvidence, "noevidence", false, "do not write evidence/replay files (selftest runs)")
-	flag.IntVar(&o.workers, "workers", 6, "concurrent obligations")
+	flag.IntVar(&o.workers, "workers", 8, "concurrent obligations")
 	flag.Parse()
 	if o.tier == "" {
 		o.tier = os.Getenv("VERIF_TIER")
